@@ -88,7 +88,7 @@ class World:
         return self.prog.lookup_method(o.cls, name)
 
 
-def specs(tier="quick", syms=None, ranks=(1, 2, 3, 4), fermionic=(False, True)):
+def specs(tier="quick", syms=None, ranks=(1, 2, 3, 4), fermionic=(False, True), drops=None):
     """the bounded universe of arrays"""
     syms = syms or (("Z2", "U1", "Z2Z2") if tier == "quick" else ("Z2", "U1", "Z2Z2", "U1U1", "Z4"))
     out = []
@@ -107,8 +107,8 @@ def specs(tier="quick", syms=None, ranks=(1, 2, 3, 4), fermionic=(False, True)):
                     tabs = TABLES[sym][:nd]
                     if not all_sectors(model, duals, charge, tabs):
                         continue
-                    drops = ("none", "alternate") if tier == "quick" else ("none", "first", "alternate")
-                    for drop in drops:
+                    drops_ = drops or (("none", "alternate") if tier == "quick" else ("none", "first", "alternate"))
+                    for drop in drops_:
                         for fm in fermionic:
                             sp = Spec(sym, duals, charge, tabs, drop=drop, fermionic=fm, signs=(2 if fm else 0))
                             if not sp.sectors():
